@@ -35,6 +35,9 @@ def run(ctx):
     r6_cancel_bookkeeping(ctx)
     r7_signature_search(ctx)
     c07.r1_validator(ctx)   # recorded as R1 of this property: validated before any read
+    ctx.alias = {'R2': 'R9'}
+    c07.r2_arithmetic(ctx)  # the stage bounds the excerpt and the signature search both use
+    ctx.alias = {}
     from . import shared
     shared.effect_free(ctx, 'R8', [f'{N.PUBLIC}.dumps'],
                        'an excerpt is a function of the document and the range: nothing remembered from an earlier excerpt (a context '
